@@ -1096,6 +1096,117 @@ def main():
         out.append("Definition CLI_events_untranslatable : unit := tt.")
     out.append("")
 
+    # ---- work package info: `mlar info` — ArchiveInfoReader::from_config makes the calls of
+    # ArchiveReader::from_config in the same order (C11), the reader is built only when the archive
+    # is compressed, the sums / the rate expression / the printed lines (C17)
+    out.append("(* mlar/src/main.rs info / ArchiveInfoReader; mla/src/lib.rs ArchiveReader::from_config *)")
+    try:
+        nc = lambda t: re.sub(r"//[^\n]*", "", t)
+        mrs = read("mlar/src/main.rs")
+        lib_rs = read("mla/src/lib.rs")
+        m_info = re.search(r"impl ArchiveInfoReader \{(.*?)\n\}\n", mrs, re.S)
+        if not m_info:
+            raise ParseError("impl ArchiveInfoReader not found")
+        ifc = find_fn_body(m_info.group(1), "from_config")
+        rbodies = all_fn_bodies(lib_rs, "from_config")
+        if ifc is None or len(rbodies) != 3:
+            raise ParseError("from_config bodies")
+
+        def open_events(body, kind):
+            """statement by statement; anything unexpected raises (fail closed)"""
+            t = nc(body).strip()
+            ev, order, types = [], [], []
+
+            def eat(pat, code=None):
+                nonlocal t
+                m = re.match(pat, t, re.S)
+                if not m:
+                    raise ParseError("%s from_config: expected /%s/ at %r" % (kind, pat[:50], t[:60]))
+                t = t[m.end():].lstrip()
+                if code is not None:
+                    ev.append(code)
+                return m
+            eat(r"src\.rewind\(\)\?;", 1)
+            eat(r"let header = ArchiveHeader::from\(&mut src\)\?;", 2)
+            eat(r"config\.load_persistent\(header\.config\)\?;", 3)
+            eat(r"let mut raw_src = Box::new\(RawLayerReader::new\(src\)\);", 4)
+            eat(r"raw_src\.reset_position\(\)\?;", 5)
+            eat(r"let mut src: Box<dyn '\w+ \+ LayerReader<'\w+, R>> = raw_src;", 6)
+            m = eat(r"if config\.layers_enabled\.contains\(Layers::(\w+)\) \{\s*src = Box::new\((\w+)::new\(src, &config\.encrypt\)\?\);\s*\}")
+            ev.append(10 + {"ENCRYPT": 1, "COMPRESS": 2}[m.group(1)]); order.append(m.group(1)); types.append(m.group(2))
+            if kind == "READER":
+                m = eat(r"if config\.layers_enabled\.contains\(Layers::(\w+)\) \{\s*src = Box::new\((\w+)::new\(src\)\?\);\s*\}")
+                ev.append(10 + {"ENCRYPT": 1, "COMPRESS": 2}[m.group(1)]); order.append(m.group(1)); types.append(m.group(2))
+                eat(r"src\.initialize\(\)\?;", 7)
+                csz = 0
+            else:
+                # then-branch: new on src, initialize of the NEW top layer, the size, src = the new layer;
+                # else-branch: initialize of the top layer.  Either way: [new if COMPRESS]; initialize(top)
+                m = eat(r"let compressed_size = if config\.layers_enabled\.contains\(Layers::(\w+)\) \{\s*"
+                        r"let mut src_compress = Box::new\((\w+)::new\(src\)\?\);\s*"
+                        r"src_compress\.initialize\(\)\?;\s*"
+                        r"let size = src_compress\s*\.sizes_info\s*\.as_ref\(\)\s*\.map\(mla::layers::compress::SizesInfo::get_compressed_size\);\s*"
+                        r"src = src_compress;\s*size\s*\} else \{\s*src\.initialize\(\)\?;\s*None\s*\};")
+                ev.append(10 + {"ENCRYPT": 1, "COMPRESS": 2}[m.group(1)]); order.append(m.group(1)); types.append(m.group(2))
+                ev.append(7)
+                csz = 1
+            eat(r"let metadata = Some\(ArchiveFooter::deserialize_from\(&mut src\)\?\);", 8)
+            eat(r"src\.rewind\(\)\?;", 9)
+            if kind == "READER":
+                eat(r"Ok\(ArchiveReader \{\s*config,\s*src,\s*metadata,\s*\}\)$")
+            else:
+                eat(r"Ok\(Self \{\s*config,\s*compressed_size,\s*metadata,\s*\}\)$")
+            return ev, order, types, csz
+        rev, rorder, rtypes, _ = open_events(rbodies[1], "READER")
+        iev, iorder, itypes, icsz = open_events(ifc[0], "INFO")
+        out.append("Definition READER_OPEN_EVENTS : list N := [%s]." % "; ".join(map(str, rev)))
+        out.append("Definition INFO_OPEN_EVENTS : list N := [%s]." % "; ".join(map(str, iev)))
+        out.append("Definition INFO_LAYER_ORDER : list N := [%s]." % "; ".join("LAYER_" + x for x in iorder))
+        out.append("Definition INFO_LAYER_TYPES : list string := [%s]." % "; ".join(coq_str(x) for x in itypes))
+        out.append("Definition INFO_compressed_size_from_sizes_info : N := %d." % icsz)
+        # get_files_size, get_compressed_size, count_keys
+        gfs = nc(find_fn_body(m_info.group(1), "get_files_size")[0])
+        k1 = re.search(r"if let Some\(ArchiveFooter \{ files_info, \.\. \}\) = &self\.metadata \{\s*Ok\(files_info\.values\(\)\.map\(\|f\| f\.size\)\.sum\(\)\)", gfs)
+        comp_rs = read("mla/src/layers/compress.rs")
+        gcs = nc(find_fn_body(comp_rs, "get_compressed_size")[0]).strip()
+        k2 = gcs == "self.compressed_sizes.iter().map(|v| u64::from(*v)).sum()"
+        ecc_rs = read("mla/src/crypto/ecc.rs")
+        k3 = nc(find_fn_body(ecc_rs, "count_keys")[0]).strip() == "self.encrypted_keys.len()"
+        out.append("Definition INFO_sums_as_modelled : N := %d." % (1 if (k1 and k2 and k3) else 0))
+        # info: the reader is built only under `if compression`, from readerconfig_from_matches (no key policy test)
+        ib = nc(find_fn_body(mrs, "info")[0])
+        k4 = re.search(r"let header = ArchiveHeader::from\(&mut file\)\?;\s*"
+                       r"let encryption = header\.config\.layers_enabled\.contains\(Layers::ENCRYPT\);\s*"
+                       r"let compression = header\.config\.layers_enabled\.contains\(Layers::COMPRESS\);\s*"
+                       r"let mla = if compression \{\s*let config = readerconfig_from_matches\(matches\);\s*"
+                       r"Some\(ArchiveInfoReader::from_config\(file, config\)\?\)\s*\} else \{\s*None\s*\};", ib)
+        out.append("Definition INFO_reader_only_if_compression : N := %d." % (1 if (k4 and "PrivateKeyProvidedButNotUsed" not in ib) else 0))
+        k5 = re.search(r"let compression_rate = output_size as f64 / compressed_size as f64;", ib)
+        out.append("Definition INFO_rate_is_f64_division : N := %d." % (1 if k5 else 0))
+        # the printed lines, in source order, with the condition that guards each (0 = none, 1 = encryption && verbose,
+        # 2 = compression && verbose): the text up to the first `{`
+        prints = []
+        guard = 0
+        for m in re.finditer(r"if (encryption|compression) && matches\.get_flag\(\"verbose\"\) \{|println!\(\s*\"([^\"]*)\"|\n    \}", ib):
+            if m.group(1):
+                guard = 1 if m.group(1) == "encryption" else 2
+            elif m.group(2) is not None:
+                prints.append((guard, m.group(2)))
+            else:
+                guard = 0
+        if len(prints) != 5:
+            raise ParseError("info: %d println! found" % len(prints))
+        out.append("Definition INFO_PRINTS : list (N * list N * list N) := [%s]." % "; ".join(
+            "(%d, [%s], [%s])" % (g, "; ".join(str(b) for b in f.split("{")[0].encode()), "; ".join(str(b) for b in ("{" + f.split("{", 1)[1]).encode()))
+            for g, f in prints))
+        # the expect sites
+        exp = re.findall(r"\.expect\(\"([^\"]*)\"\)", ib)
+        out.append("Definition INFO_EXPECTS : N := %d." % len(exp))
+    except Exception as e:  # fail closed
+        out.append("(* mlar info: %s *)" % e)
+        out.append("Definition INFO_untranslatable : unit := tt.")
+    out.append("")
+
     # ---- C bindings: MLAStatus discriminants and the null checks of every entry point (C20)
     out.append("(* bindings/C/src/lib.rs *)")
     try:
